@@ -70,6 +70,9 @@ type Client struct {
 	// InjectNotFound: a rejected Delete is, arbitrarily, a plain error or a NotFound answer, and a rejected
 	// Create a plain error or an AlreadyExists answer.
 	InjectNotFound bool
+	// InjectTransient: an injected failure of a write is, arbitrarily, the plain error or a typed
+	// transient API error (ServerTimeout) — the kind of error client code is tempted to retry at once.
+	InjectTransient bool
 	// FaultOnly, when set, restricts InjectFaults to the writes it accepts (verb, kind, name);
 	// every other write succeeds.  Used to afford large batches: one symbolic failing position.
 	FaultOnly func(verb, kind, name, node string) bool
@@ -195,6 +198,14 @@ func (c *Client) fault() int {
 		return 2
 	}
 	return 1
+}
+
+// injected returns the error of an injected write failure.
+func (c *Client) injected(kind, verb string) error {
+	if c.InjectTransient && nondet.Bool("api.transient") {
+		return apierrors.NewServerTimeout(schema.GroupResource{Resource: kind}, verb, 1)
+	}
+	return ErrInjected
 }
 
 func notFound(kind, name string) error {
@@ -355,7 +366,7 @@ func (c *Client) Create(ctx context.Context, obj client.Object, opts ...client.C
 		if c.InjectNotFound && nondet.Bool("api.alreadyexists") {
 			return apierrors.NewAlreadyExists(schema.GroupResource{Resource: e.Kind}, obj.GetGenerateName()+obj.GetName())
 		}
-		return ErrInjected
+		return c.injected(e.Kind, "create")
 	}
 	if obj.GetName() == "" && obj.GetGenerateName() != "" {
 		obj.SetName(c.nextName(obj.GetGenerateName()))
@@ -407,7 +418,7 @@ func (c *Client) Create(ctx context.Context, obj client.Object, opts ...client.C
 	e.Applied = true
 	if f == 2 {
 		e.Failed = true
-		return ErrInjected
+		return c.injected(e.Kind, "create")
 	}
 	return nil
 }
